@@ -620,6 +620,14 @@ func main() {
 			}
 			return base
 		}},
+		// fewer than 11 ancestors AND valid but non-monotonic timestamps: the median-time-past window is
+		// shorter than its array and has to be sorted
+		stateDef{name: "young-zigzag6", n: 6, time: func(h uint32) uint32 {
+			return uint32(minichain.GenesisTime) + []uint32{0, 1680, 3780, 1920, 5100, 5040, 4000}[h]
+		}},
+		stateDef{name: "young-zigzag9", n: 9, time: func(h uint32) uint32 {
+			return uint32(minichain.GenesisTime) + []uint32{0, 600, 7000, 1300, 6500, 2000, 6000, 2600, 5500, 3200}[h]
+		}},
 		stateDef{name: "h127", n: 127},
 		stateDef{name: "h255", n: 255},
 	)
